@@ -847,9 +847,48 @@ def cond_holds(cond, n):
     return True
 
 
+def _eval_cond(c, n):
+    """truth of a canonical condition over LEN at LEN = n (None if not decidable here)"""
+    c = c.strip()
+    m = re.match(r"^Not\((.*)\)$", c)
+    if m:
+        v = _eval_cond(m.group(1), n)
+        return None if v is None else (not v)
+    m = re.match(r"^(Eq|Ne|Lt|Le)\((.*)\)$", c)
+    if m:
+        from .rules_sift import split_top
+        a, b = split_top(m.group(2))
+        def num(x):
+            x = x.strip()
+            if x == "LEN":
+                return n
+            mm = re.match(r"^(\d+)_usize$", x)
+            return int(mm.group(1)) if mm else None
+        x, y = num(a), num(b)
+        if x is None or y is None:
+            return None
+        return {"Eq": x == y, "Ne": x != y, "Lt": x < y, "Le": x <= y}[m.group(1)]
+    if c in ("true", "false"):
+        return c == "true"
+    return None
+
+
 def render_return(val, n=None):
     if val.startswith("Option::None"):
         return "None"
+    if n is not None:
+        # `cond.then_some(v)` and `len.checked_sub(k).map(Position)` evaluated at the length under consideration
+        m = re.match(r"^bool::then_some\((.*)\)$", val)
+        if m:
+            from .rules_sift import split_top
+            c, v = split_top(m.group(1))
+            t = _eval_cond(c, n)
+            if t is not None:
+                return render_return("Option::Some(%s)" % v, n) if t else "None"
+        m = re.match(r"^std::option::Option::map\(usize::checked_sub\(LEN,(\d+)_usize\),fn:[A-Za-z_:]*Position(::Position)?\)$", val)
+        if m:
+            k = int(m.group(1))
+            return "Some(%d)" % (n - k) if n >= k else "None"
     if n is not None and "LEN" in val:
         # a position computed from the length (`Position(len - 1)`), evaluated at the length under consideration
         def ev(m):
